@@ -189,7 +189,9 @@ CLAIMS["C12"] = dict(
         "the InvalidNodeVisitor table extracted from the source each run (re-proved as instance lemmas), the guard is emitted "
         "exactly for alternatives mentioning an invalid* name at ANY nesting depth -- also stated for the generator itself "
         "(C12_generated_guards_are_exact: whatever rule emit_rule emits, original or helper, in whatever state, the k-th "
-        "alternative of the method is guarded iff the k-th alternative of the flattened rule body mentions such a name). Tie: K-gen/K-run. On the implementation: "
+        "alternative of the method is guarded iff the k-th alternative of the flattened rule body mentions such a name); "
+        "C12_flag_on_equals_parser_without_guards (Proofs/ExecUnguard.v): with the flag ON, a module without *_without_invalid methods "
+        "computes exactly what the module with every guard removed computes. Tie: K-gen/K-run. On the implementation: "
         "parser(G) with the flag off equals parser(G minus those alternatives) on enumerated inputs for 14 placements, no "
         "invalid_ rule is invoked with the flag off, and the flag is monitored at every call in both modes.",
    design="6/C12", technique="Coq proofs (flag preservation and whole-program strip equivalence by induction on fuel; detector exactness via table simulation) + strip-equivalence sweep",
@@ -264,7 +266,10 @@ CLAIMS["C01"] = dict(
         "(independence of earlier alternatives' leftover locals; never a falsy value -- the C05 finding), for every module with the "
         "decidable reads_back_with_actions rs M = true (floor of 8 shapes; coverage count in the evidence). (5) Grammars with invalid_ "
         "rules, first pass (C01_first_pass_implements_the_grammar_without_its_invalid_alternatives): composed with C12's stripping "
-        "theorem, from a state with error mode off the parser implements the grammar without the alternatives mentioning invalid_ rules. The "
+        "theorem, from a state with error mode off the parser implements the grammar without the alternatives mentioning invalid_ rules "
+        "(also with the cache on: C01_cached_first_pass_...); second pass (C01_second_pass_implements_the_full_grammar, via "
+        "C12_flag_on_equals_parser_without_guards): with error mode on it implements the full grammar when the invalid_ alternatives "
+        "carry their own action (bare ones are emitted with the UNREACHABLE filler). The "
         "condition is evaluated in Coq on the generator model's output for a floor of 21 action-free shapes (must hold) and for every "
         "explored grammar (coverage count in the evidence; all explored action-free random grammars are inside). Partial: "
         "left recursion, the second pass over invalid_ rules, LOCATIONS, a cut together with an action, forced items over nullable or forced operands, and the completeness "
